@@ -3,10 +3,13 @@ package main
 import (
 	"fmt"
 	"go/ast"
+	"go/constant"
 	"go/token"
 	"go/types"
 	"sort"
 	"strings"
+
+	"golang.org/x/tools/go/ssa"
 )
 
 // R04.12  token-adjacency language of the must/when grammar.
@@ -399,4 +402,128 @@ func c04LocalPartStart(w *World, r *Report) {
 	if n < 3 {
 		panic(undecided{"fewer ConstructToken calls in LexName than expected"})
 	}
+}
+
+// R04.18  no whitespace inside a token. The whitespace-skipping look-ahead
+// helpers exist for the §3.7 disambiguation of names ("possibly after
+// intervening ExprWhitespace") and are called from the LexName methods only;
+// every other token-forming method reads the next character with Next(), so
+// ">" " " "=" is never glued into ">=".
+func c04NoGluedTokens(w *World, r *Report) {
+	helpers := map[*types.Func]bool{
+		w.Method("xpath", "CommonLex", "NextNonWhitespace"):         true,
+		w.Method("xpath", "CommonLex", "NextNonWhitespaceStringIs"): true,
+	}
+	n := 0
+	for _, key := range []string{"xpath", "xpath/grammars/expr", "xpath/grammars/leafref", "xpath/grammars/path_eval"} {
+		p := w.Pkg(key)
+		for _, fd := range funcDecls(p) {
+			if fd.Body == nil || isTestFile(w, fd.Pos()) {
+				continue
+			}
+			for _, ce := range callsIn(p, fd.Body) {
+				f := calleeOf(p, ce)
+				if f == nil || !helpers[f] {
+					// interface method of the same name
+					if se, ok := ce.Fun.(*ast.SelectorExpr); !ok || (se.Sel.Name != "NextNonWhitespace" && se.Sel.Name != "NextNonWhitespaceStringIs") {
+						continue
+					}
+				}
+				n++
+				name := funcDeclName(fd)
+				ok := strings.HasSuffix(name, ".LexName") || strings.HasSuffix(name, ".NextNonWhitespaceStringIs")
+				r.Check(ok, "R04.18", key+"."+name+" skips whitespace while looking ahead", ce.Pos(), "name disambiguation (§3.7)", "a token-forming function other than LexName looks past whitespace for the rest of its token: two tokens separated by blanks (e.g. '>' '=') are accepted as one, a string XPath rejects")
+			}
+		}
+	}
+	if n == 0 {
+		panic(undecided{"no use of the whitespace-skipping look-ahead found"})
+	}
+}
+
+// R04.19  a literal needs its closing quote. In LexLiteral the LITERAL return
+// is reachable only through the branch on which the character after the
+// opening quote *is* the quote (empty literal) or through ConstructToken,
+// which records an error when the input ends before the quote.
+func c04LiteralClosed(w *World, r *Report) {
+	f := w.SSAFunc(w.Method("xpath", "CommonLex", "LexLiteral"))
+	if f == nil {
+		panic(undecided{"CommonLex.LexLiteral"})
+	}
+	lit := xutilsTok(w, "LITERAL")
+	quote := f.Params[1] // receiver is Params[0]
+	var target *ssa.BasicBlock
+	for _, b := range f.Blocks {
+		if ret, ok := b.Instrs[len(b.Instrs)-1].(*ssa.Return); ok && len(ret.Results) > 0 {
+			if c, ok := ret.Results[0].(*ssa.Const); ok && c.Value != nil {
+				if v, ok := constant.Int64Val(constant.ToInt(c.Value)); ok && v == lit {
+					target = b
+				}
+			}
+		}
+	}
+	if target == nil {
+		panic(undecided{"LexLiteral: return of LITERAL not found"})
+	}
+	blocked := map[[2]*ssa.BasicBlock]bool{} // edges that establish "closing quote seen"
+	stop := map[*ssa.BasicBlock]bool{}       // blocks that call ConstructToken
+	for _, b := range f.Blocks {
+		for _, in := range b.Instrs {
+			if c, ok := in.(*ssa.Call); ok {
+				if sc := c.Call.StaticCallee(); sc != nil && sc.Name() == "ConstructToken" {
+					stop[b] = true
+				}
+			}
+		}
+		if iff, ok := b.Instrs[len(b.Instrs)-1].(*ssa.If); ok {
+			isQuote := func(v ssa.Value) bool {
+				if v == ssa.Value(quote) {
+					return true
+				}
+				// the parameter spilled to a cell because a closure captures it
+				if u, ok := v.(*ssa.UnOp); ok && u.Op == token.MUL {
+					if a, ok := u.X.(*ssa.Alloc); ok {
+						stores := 0
+						fromParam := false
+						for _, ref := range *a.Referrers() {
+							if st, ok := ref.(*ssa.Store); ok && st.Addr == ssa.Value(a) {
+								stores++
+								fromParam = st.Val == ssa.Value(quote)
+							}
+						}
+						return stores == 1 && fromParam
+					}
+				}
+				return false
+			}
+			if bo, ok := iff.Cond.(*ssa.BinOp); ok && (isQuote(bo.X) || isQuote(bo.Y)) {
+				switch bo.Op {
+				case token.NEQ:
+					blocked[[2]*ssa.BasicBlock{b, b.Succs[1]}] = true
+				case token.EQL:
+					blocked[[2]*ssa.BasicBlock{b, b.Succs[0]}] = true
+				}
+			}
+		}
+	}
+	seen := map[*ssa.BasicBlock]bool{}
+	work := []*ssa.BasicBlock{f.Blocks[0]}
+	reach := false
+	for len(work) > 0 {
+		b := work[len(work)-1]
+		work = work[:len(work)-1]
+		if seen[b] || stop[b] {
+			continue
+		}
+		seen[b] = true
+		if b == target {
+			reach = true
+		}
+		for _, s := range b.Succs {
+			if !blocked[[2]*ssa.BasicBlock{b, s}] {
+				work = append(work, s)
+			}
+		}
+	}
+	r.Check(!reach && len(stop) > 0 && len(blocked) > 0, "R04.19", "LexLiteral returns LITERAL only for a closed literal", target.Instrs[len(target.Instrs)-1].Pos(), "via `next == quote` or via ConstructToken (which reports a missing terminator)", "there is a path to the LITERAL return on which neither the closing quote was seen nor ConstructToken ran (e.g. input ends right after the opening quote): an unterminated literal is accepted as the empty string")
 }
